@@ -152,7 +152,7 @@ Proof.
     rewrite IH by exact H2. rewrite IH by exact H1. rewrite shr_1_m by exact Hm.
     rewrite !Z.div_div by lia. f_equal.
     replace (Zpos p~1) with (1 + Zpos p + Zpos p) by lia.
-    rewrite !Z.pow_add_r by lia. rewrite Z.pow_1_r. reflexivity.
+    rewrite !Z.pow_add_r by lia. rewrite Z.pow_1_r. ring.
   - assert (HB : 0 < 2 ^ Zpos p) by (apply pow2_pos; lia).
     assert (H2 : 0 <= shr_m (iter_pos shr_1 p mrs)) by (rewrite IH by exact Hm; apply Z.div_pos; lia).
     rewrite IH by exact H2. rewrite IH by exact Hm.
@@ -414,7 +414,7 @@ Theorem f_mul_valid x y :
 Proof. apply (SFmul_valid prec emax prec_pos prec_lt_emax). Qed.
 
 Theorem f_of_Z_valid v : valid_binary prec emax (f_of_Z v) = true.
-Proof. apply (binary_normalize_valid prec emax prec_pos prec_lt_emax). Qed.
+Proof. apply (binary_normalize_valid prec emax prec_pos). Qed.
 
 (* a non-zero integer converts to a bounded finite number or (never, in fact, for int64) to an
    infinity: not to a zero and not to NaN *)
@@ -422,7 +422,7 @@ Theorem f_of_Z_finite_bounded v : v <> 0 ->
   exists s, f_of_Z v = S754_infinity s \/
             exists m e, f_of_Z v = S754_finite s m e /\ bounded prec emax m e = true.
 Proof.
-  intros Hv. apply (binary_normalize_nonzero prec emax prec_pos prec_lt_emax); [exact Hv|].
+  intros Hv. apply (binary_normalize_nonzero prec emax prec_pos); [exact Hv|].
   assert (H1 : 1 <= Zdigits2 v) by (destruct v as [|p|p]; [congruence| |]; apply (dg_pos p)).
   change (SpecFloat.emin prec emax) with (-1074). lia.
 Qed.
